@@ -85,6 +85,10 @@ Proof. exact generated_shapes_tables_req. Qed.
 Theorem c14_plain_structures_unchanged_misc : plain_hold raw_decls plain_misc = true.
 Proof. exact generated_plain_misc. Qed.
 
+(* the cargo features are independent switches with nothing on by default: a feature set of the model means exactly its cfgs *)
+Theorem c14_feature_table_unchanged : features_hold cargo_features = true.
+Proof. exact generated_features. Qed.
+
 Eval vm_compute in "ASSUMPTIONS c14_known_param". Print Assumptions c14_known_param.
 Eval vm_compute in "ASSUMPTIONS c14_params_filter". Print Assumptions c14_params_filter.
 Eval vm_compute in "ASSUMPTIONS c14_loop_is_fold". Print Assumptions c14_loop_is_fold.
@@ -98,3 +102,4 @@ Eval vm_compute in "ASSUMPTIONS c14_modelled_functions_unchanged_request". Print
 Eval vm_compute in "ASSUMPTIONS c14_modelled_functions_unchanged_accessors". Print Assumptions c14_modelled_functions_unchanged_accessors.
 Eval vm_compute in "ASSUMPTIONS c14_modelled_functions_unchanged_tables_req". Print Assumptions c14_modelled_functions_unchanged_tables_req.
 Eval vm_compute in "ASSUMPTIONS c14_plain_structures_unchanged_misc". Print Assumptions c14_plain_structures_unchanged_misc.
+Eval vm_compute in "ASSUMPTIONS c14_feature_table_unchanged". Print Assumptions c14_feature_table_unchanged.
